@@ -94,6 +94,19 @@ def check(ctx):
                 short, unparse(a)), ok, a,
                 'registration of the name is not dominated by the '
                 'duplicate test')
+            # registration is unconditional: no path from the duplicate test
+            # back to the loop header (next target) or out of the loop skips
+            # the add
+            for gd in guards:
+                lp = _enclosing_loop(gd, f.node)
+                if lp is None:
+                    continue
+                skip = g.reaches(gd, lp, avoiding={sa_})
+                ctx.ob(RULE, 'registration-unconditional|{}|{}'.format(
+                    short, unparse(a)), not skip, a,
+                    'a target can pass the duplicate test without being '
+                    'registered (the add is conditional): a later rule for '
+                    'the same file is then accepted')
             # guard and add must be in the same loop over the targets
             loop_a = _enclosing_loop(a, f.node)
             ok2 = loop_a is not None and any(
